@@ -266,7 +266,23 @@ func c13rules(c *core.Ctx, ps [][]byte, mtu int) bool {
 // c13inverses: LEB128 write/read and OBU header parse/marshal are mutually inverse on the
 // values of this OBU.
 func c13inverses(c *core.Ctx, o *av1OBU) {
-	for _, v := range []uint64{uint64(len(o.payload)), uint64(len(o.payload)) + 127, uint64(len(o.payload)) << 7, uint64(o.typ)<<28 | uint64(len(o.payload))} {
+	// the traffic's own values, plus one drawn value at or around a 7-bit boundary of the 32-bit range
+	// (sampling with boundary bias; the enumeration the property mentions is not done by this family)
+	edges := []uint64{0, 1 << 7, 1 << 14, 1 << 21, 1 << 28, 1<<32 - 1, 1<<32 - 2}
+	drawn := edges[c.T.Intn(len(edges))]
+	switch c.T.Intn(4) {
+	case 1:
+		if drawn > 0 {
+			drawn--
+		}
+	case 2:
+		if drawn < 1<<32-1 {
+			drawn++
+		}
+	case 3:
+		drawn = c.T.Draw(1 << 32)
+	}
+	for _, v := range []uint64{uint64(len(o.payload)), uint64(len(o.payload)) + 127, uint64(len(o.payload)) << 7, uint64(o.typ)<<28 | uint64(len(o.payload)), drawn} {
 		v &= 0xFFFFFFFF
 		var enc []byte
 		var dec, n uint
